@@ -205,6 +205,17 @@ pub fn run(cfg: &Cfg) -> (&'static str, Report, String, String) {
             pair(r, &s4[i], d);
         }
     }));
+    // every lead-byte class under the empty delimiter / as a char delimiter / next to an ASCII delimiter
+    let mut la: Vec<&str> = LEADS.to_vec();
+    la.extend(LEADS_HI3);
+    la.push(",");
+    let ls = strings_upto(&la, cfg.by(1, 3, 3));
+    let ld: Vec<&str> = if cfg.miri() { vec!["", ","] } else { vec!["", ",", "\u{ffff}", "\u{8000}", "\u{800}", "\u{10ffff}", "a\u{fffd}"] };
+    rep.merge(par_for(cfg, ls.len(), |i, r| {
+        for d in &ld {
+            pair(r, &ls[i], d);
+        }
+    }));
     let nrand = cfg.by(3, 1500, 10000);
     rep.merge(par_for(cfg, nrand, |i, r| {
         let mut rng = Rng::new(cfg.seed.wrapping_mul(104_729).wrapping_add(i as u64));
